@@ -197,6 +197,11 @@ def run(ctx):
     R6 = chk.rule('C05.R6', 'transaction premises: explicit BEGIN, no autocommit, only PRAGMA journal_mode=wal', 1)
     transaction_premises(ctx, chk, R6)
 
+    from .common import option_forwarding
+    R7 = chk.rule('C05.R7', 'do_commit is forwarded unchanged by every wrapper (a dropped do_commit=False would commit in the middle of an import)', 1)
+    nf = option_forwarding(ctx, chk, R7, ['do_commit'])
+    chk.require(nf >= 2, f'expected >= 2 forwarding sites of do_commit, found {nf}')
+
     return chk.finish(
         explanation=('Static typestate analysis on inlined control-flow graphs with a generic-object construction: for every reachable '
                      '(node, state) pair -- i.e. every boundary between two I/O-relevant calls, on every path and loop iteration, per flag '
